@@ -189,9 +189,10 @@ class World:
                 self.log.add("struct", self.op_index, kind)
             return None
 
-    def _eval_op(self, kind, op):
+    def _eval_op(self, kind, op, o_obj=None):
+        """o_obj: a caller-owned dictionary object to pass as is (identity preserved across ops)."""
         obj = self.prog.obj[op["node"]]
-        o = copy.deepcopy(op["o"])
+        o = copy.deepcopy(op["o"]) if o_obj is None else o_obj
         snap = crepr(o)
         try:
             if kind == "evaluate":
